@@ -21,6 +21,7 @@ type Clause struct {
 	Line    int
 	Trusted bool // from an `assume` (spec file)
 	Label   string
+	Defines bool // definitional clause (skipped when verifying an implementation)
 }
 
 type CutAssert struct {
@@ -55,6 +56,9 @@ type Contract struct {
 	Used     bool
 	Panics   []Clause
 	Watch    []Clause
+	SubtypeOf  string         // synthesized: implementation verified against this interface contract
+	ParamAlias map[string]int // interface parameter name -> position
+	logs       []string
 }
 
 type SpecFun struct {
@@ -267,6 +271,13 @@ func (ct *ContractTable) LoadFile(path, pkg string, inRepo bool) {
 				cur.Requires = append(cur.Requires, mk(rest))
 			case "ensures":
 				c := mk(rest)
+				c.Trusted = !inRepo
+				cur.Ensures = append(cur.Ensures, c)
+			case "defines":
+				// defines f(recv): the implementation's result *is* the value of the spec function at its
+				// receiver (checked for implementations only as purity; assumed at call sites)
+				c := mk("ret0 == " + rest)
+				c.Defines = true
 				c.Trusted = !inRepo
 				cur.Ensures = append(cur.Ensures, c)
 			case "assume":
